@@ -2,6 +2,8 @@
 from __future__ import annotations
 
 import copy
+
+import numpy as np
 from typing import List, Optional
 
 ALG_INDEX = {}
@@ -19,6 +21,35 @@ def _load():
     for name in dir(P):
         if name.startswith("ALG_"):
             ALG_INDEX[name[4:].lower()] = getattr(P, name)
+
+
+def register_custom():
+    """A user-registered CHECKING constraint through the public register_propagator: x_0 != x_1, woken only when a
+    variable is instantiated (EVENT_MASK_GROUND), prunes nothing.  The shipped sub-cycle constraint is the only other
+    listener of that event; with this one, a lost or late instantiation event is observable on every kind of model."""
+    import nucs.propagators.propagators as P
+
+    if any(f.__name__ == "compute_domains_ground_neq" for f in P.COMPUTE_DOMAINS_FCTS):
+        return
+    from nucs.constants import EVENT_MASK_GROUND, MAX, MIN, PROP_CONSISTENCY, PROP_ENTAILMENT, PROP_INCONSISTENCY
+    from numba import njit
+
+    def get_triggers_ground_neq(n, parameters):
+        return np.full(n, dtype=np.uint8, fill_value=EVENT_MASK_GROUND)
+
+    def get_complexity_ground_neq(n, parameters):
+        return 1.0
+
+    @njit(cache=False)
+    def compute_domains_ground_neq(domains, parameters):
+        if domains[0, MIN] == domains[0, MAX] and domains[1, MIN] == domains[1, MAX]:
+            if domains[0, MIN] == domains[1, MIN]:
+                return PROP_INCONSISTENCY
+            return PROP_ENTAILMENT
+        return PROP_CONSISTENCY
+
+    P.register_propagator(get_triggers_ground_neq, get_complexity_ground_neq, compute_domains_ground_neq)
+    ALG_INDEX.clear()
 
 
 def alg_name(i: int) -> str:
@@ -73,9 +104,24 @@ def build_problem(model: dict):
     return p
 
 
+CALLER_BUFFERS: dict = {}  # (role, shape) -> the calling application's own int64 array, reused for every configuration
+
+
+def _caller_array(params, role):
+    a = np.array(params, dtype=np.int64)
+    buf = CALLER_BUFFERS.setdefault((role, a.shape), np.empty(a.shape, dtype=np.int64))
+    buf[...] = a
+    return buf
+
+
 def build_solver(problem, cfg: dict, stack_max_height: int = 128, decision_domains: Optional[List[int]] = None):
     from nucs.solvers.backtrack_solver import BacktrackSolver
 
+    solver = _build_solver(BacktrackSolver, problem, cfg, stack_max_height, decision_domains)
+    return solver
+
+
+def _build_solver(BacktrackSolver, problem, cfg, stack_max_height, decision_domains):
     kw = {}
     if decision_domains is None and cfg.get("decision") is not None:
         decision_domains = list(cfg["decision"])
@@ -94,7 +140,19 @@ def build_solver(problem, cfg: dict, stack_max_height: int = 128, decision_domai
         kw["dom_heuristic_idx"] = cfg["dom_h"]
     if stack_max_height != 128:
         kw["stack_max_height"] = stack_max_height
-    return BacktrackSolver(problem, log_level="ERROR", **kw)
+    bufs = []
+    if cfg.get("caller_buffer"):
+        # the application hands its cost tables over in an int64 array of its own, and fills that array with the next
+        # configuration as soon as the solver is built (legal: the solver is configured by the VALUES it was given)
+        for k in ("var_heuristic_params", "dom_heuristic_params"):
+            if k in kw:
+                kw[k] = _caller_array(kw[k], k)
+                bufs.append(kw[k])
+    solver = BacktrackSolver(problem, log_level="ERROR", **kw)
+    for b in bufs:
+        if b.ndim == 2 and b.size:
+            b[...] = b[:, ::-1] + 1
+    return solver
 
 
 def engine_model(model: dict, problem) -> dict:
